@@ -1542,9 +1542,9 @@ func throughGetter(v ssa.Value) ssa.Value {
 // ---- O8.9: each configured bound is enforced on its own
 
 // boundNonZeroCond evaluates a branch condition under the assumption that every Limit/Passes field read is non-zero.
-func boundNonZeroCond(cond ssa.Value, fields map[string]bool) (val, known bool) {
+func boundNonZeroCond(cond ssa.Value, bound func(*types.Var) string) (val, known bool) {
 	if u, ok := cond.(*ssa.UnOp); ok && u.Op == token.NOT {
-		v, k := boundNonZeroCond(u.X, fields)
+		v, k := boundNonZeroCond(u.X, bound)
 		return !v, k
 	}
 	b, ok := cond.(*ssa.BinOp)
@@ -1554,7 +1554,7 @@ func boundNonZeroCond(cond ssa.Value, fields map[string]bool) (val, known bool) 
 	isBound := func(v ssa.Value) bool {
 		for _, r := range Roots(v, false) {
 			fv, _ := FieldOf(Strip(r))
-			if fv == nil || !fields[fv.Name()] {
+			if fv == nil || bound(fv) == "" {
 				return false
 			}
 		}
@@ -1578,7 +1578,7 @@ func boundNonZeroCond(cond ssa.Value, fields map[string]bool) (val, known bool) 
 
 // boundsMayReach: the Limit/Passes fields the value may derive from when both are non-zero (phi edges from
 // blocks that are unreachable under that assumption do not count).
-func boundsMayReach(fn *ssa.Function, v ssa.Value, fields map[string]bool) map[string]bool {
+func boundsMayReach(fn *ssa.Function, v ssa.Value, bound func(*types.Var) string) map[string]bool {
 	feasible := map[*ssa.BasicBlock]bool{}
 	edge := map[[2]*ssa.BasicBlock]bool{}
 	var walk func(b *ssa.BasicBlock)
@@ -1589,7 +1589,7 @@ func boundsMayReach(fn *ssa.Function, v ssa.Value, fields map[string]bool) map[s
 		feasible[b] = true
 		succs := Succs(b)
 		if iff, ok := b.Instrs[len(b.Instrs)-1].(*ssa.If); ok && len(b.Succs) == 2 {
-			if val, known := boundNonZeroCond(iff.Cond, fields); known {
+			if val, known := boundNonZeroCond(iff.Cond, bound); known {
 				if val {
 					succs = []*ssa.BasicBlock{b.Succs[0]}
 				} else {
@@ -1613,8 +1613,8 @@ func boundsMayReach(fn *ssa.Function, v ssa.Value, fields map[string]bool) map[s
 			return
 		}
 		seen[v] = true
-		if fv, _ := FieldOf(Strip(v)); fv != nil && fields[fv.Name()] {
-			out[fv.Name()] = true
+		if fv, _ := FieldOf(Strip(v)); fv != nil && bound(fv) != "" {
+			out[bound(fv)] = true
 			return
 		}
 		switch x := v.(type) {
@@ -1657,8 +1657,31 @@ func boundsMayReach(fn *ssa.Function, v ssa.Value, fields map[string]bool) map[s
 func c08EachBoundOnItsOwn(c *Ctx, provs []*provider) {
 	c.Rule("O8.9", "each bound is enforced on its own: a provider whose Run tree reads both a Limit and a Passes setting delivers min(limit, passes x entries) entries, so with both set (non-zero) the delivery counter is compared with a value that may come from Limit and with a value that may come from Passes - a comparison with the field itself (the form of every decoder), or with a derived bound (a total computed up front) that still depends on that field when the other one is set too")
 	// limit / passesLimit: the fields in which lib/ioutil2's multi-pass reader and the grpc provider keep the setting they are given
-	fields := map[string]bool{"Limit": true, "Passes": true, "limit": true, "passesLimit": true}
 	canon := map[string]string{"Limit": "Limit", "limit": "Limit", "Passes": "Passes", "passesLimit": "Passes"}
+	// a field of a small carrier type (ammoCycle{limit: cfg.Limit, passes: cfg.Passes}) stands for the setting every
+	// store puts into it
+	memo := map[*types.Var]string{}
+	var bound func(fv *types.Var) string
+	bound = func(fv *types.Var) string {
+		if r, ok := memo[fv]; ok {
+			return r
+		}
+		memo[fv] = ""
+		if cn, ok := canon[fv.Name()]; ok {
+			memo[fv] = cn
+			return cn
+		}
+		res := ""
+		for _, sv := range c.P.FieldStores(fv) {
+			f2, _ := FieldOf(Strip(sv))
+			if f2 == nil || f2 == fv || bound(f2) == "" || (res != "" && res != bound(f2)) {
+				return ""
+			}
+			res = bound(f2)
+		}
+		memo[fv] = res
+		return res
+	}
 	n := 0
 	for _, pr := range provs {
 		reads := map[string]bool{}
@@ -1678,7 +1701,7 @@ func c08EachBoundOnItsOwn(c *Ctx, provs []*provider) {
 					return
 				}
 				for _, a := range cc.Args {
-					if fv, _ := FieldOf(Strip(a)); fv != nil && fields[fv.Name()] {
+					if fv, _ := FieldOf(Strip(a)); fv != nil && bound(fv) != "" {
 						for _, g := range PkgFuncs(cc.StaticCallee().Pkg) {
 							if !inTree[g] && IsProdFile(c.P.File(g.Pos())) {
 								inTree[g] = true
@@ -1692,34 +1715,45 @@ func c08EachBoundOnItsOwn(c *Ctx, provs []*provider) {
 		for _, fn := range tree {
 			EachInstr(fn, func(in ssa.Instruction) {
 				if v, ok := in.(ssa.Value); ok {
-					if fv, _ := FieldOf(v); fv != nil && fields[fv.Name()] {
+					if fv, _ := FieldOf(v); fv != nil && bound(fv) != "" {
 						if _, isStore := in.(*ssa.Store); !isStore {
-							reads[canon[fv.Name()]] = true
+							reads[bound(fv)] = true
 						}
 					}
 				}
 			})
-			for _, lt := range limitTests(fn, fields) {
-				direct[canon[lt.Field]] = true
-			}
-			for _, b := range fn.Blocks {
-				iff, ok := b.Instrs[len(b.Instrs)-1].(*ssa.If)
+			// every comparison of the function, whether it ends a block (if / for / switch) or feeds a boolean
+			// (`done := p.Passes != 0 && pass >= p.Passes`)
+			EachInstr(fn, func(in ssa.Instruction) {
+				b, ok := in.(*ssa.BinOp)
 				if !ok {
-					continue
+					return
 				}
-				f := CondFact(iff.Cond, true).Canon()
-				if f.Y == nil || (f.Op != token.LSS && f.Op != token.LEQ) {
-					continue
+				switch b.Op {
+				case token.LSS, token.LEQ, token.GTR, token.GEQ:
+				default:
+					return
 				}
-				for _, side := range []ssa.Value{f.X, f.Y} {
+				for k, side := range []ssa.Value{b.X, b.Y} {
+					other := b.Y
+					if k == 1 {
+						other = b.X
+					}
 					if _, isC := ConstInt(side); isC {
 						continue
 					}
-					for name := range boundsMayReach(fn, side, fields) {
-						derived[canon[name]] = true
+					if _, isC := ConstInt(other); isC {
+						continue // `Limit > 0` is a switch, not a bound test
+					}
+					if fv, _ := FieldOf(Strip(throughGetter(side))); fv != nil && bound(fv) != "" {
+						direct[bound(fv)] = true
+						continue
+					}
+					for name := range boundsMayReach(fn, side, bound) {
+						derived[name] = true
 					}
 				}
-			}
+			})
 		}
 		if !reads["Limit"] || !reads["Passes"] {
 			continue
